@@ -148,6 +148,22 @@ def run_group(group, out):
                             '[%s compression=%s threshold=%d AE=%r %s acknowledgement] %s' % (impl, group['compression'], group['threshold'], ae, what, text),
                             {'impl': impl, 'compression': group['compression'], 'threshold': group['threshold'],
                              'case': [payloads, j, ae]}, weight=(0, 1)))
+        # a JSONP poll answered during an upgrade handshake (a lone NOOP), with and without compression on offer
+        if sid in w.live_sids():
+            up = peer.ws_upgrade(w, sid)
+            w.ws_send(up, '2probe')
+            w.run()
+            for ae in (None, 'gzip'):
+                hdr = {} if ae is None else {'Accept-Encoding': ae}
+                g = peer.poll(w, sid, extra='&j=3', headers=hdr)
+                n += 1
+                for kind, text in judge(g, '6', 3, ae, group['compression'], group['threshold']):
+                    out.append(report.Violation(
+                        {'impl': impl, 'kind': kind, 'trigger': 'jsonp_mid_upgrade'},
+                        '[%s compression=%s threshold=%d j=3 AE=%r poll during an upgrade handshake] %s'
+                        % (impl, group['compression'], group['threshold'], ae, text),
+                        {'impl': impl, 'compression': group['compression'], 'threshold': group['threshold'],
+                         'case': [[''], 3, ae]}, weight=(0, 1)))
     finally:
         w.teardown()
     return n
